@@ -40,6 +40,9 @@ type queueItem struct {
 	dateAddedToQueue time.Time
 	// backoff will handle backing off of future indexing requests for a duration of time based on previous failures
 	backoff backoff
+	// seenGen is the MaybeRemoveMissing call that last found this item in its
+	// list of ids (used to notice ids that are listed twice).
+	seenGen int64
 }
 
 // Queue is a priority queue which returns the next repo to index. It is safe
@@ -53,6 +56,7 @@ type Queue struct {
 	items        map[uint32]*queueItem
 	pq           pqueue
 	seq          int64
+	removeGen    int64
 	logger       sglog.Logger
 	newQueueItem func(uint32) *queueItem
 }
@@ -322,11 +326,16 @@ func (q *Queue) MaybeRemoveMissing(ids []uint32) []uint32 {
 	if sameSize {
 		// The same size only means "nothing to remove" if it is the same set:
 		// with one repository gone and another one new the sizes agree too.
+		// An id listed twice stands for one repository only, so the list then
+		// names fewer repositories than we track.
+		q.removeGen++
 		for _, id := range ids {
-			if _, ok := q.items[id]; !ok {
+			item, ok := q.items[id]
+			if !ok || item.seenGen == q.removeGen {
 				sameSize = false
 				break
 			}
+			item.seenGen = q.removeGen
 		}
 	}
 	q.mu.Unlock()
